@@ -29,8 +29,8 @@ ASSUMPTIONS = ["names are resolved relative to the array directory; symlink alia
 EXHAUSTIVE = "method x protected target x spelling x flag matrix for Array and RaggedArray"
 METHODS = ['write_txt', 'write_jsonfile', 'write_jsondict', 'update_jsondict', 'delete_files'] + \
           ['open_file:' + m for m in ['w', 'a', 'x', 'r+', 'rb+', 'r+b', 'wb', 'ab', 'w+', 'a+', 'xb']]
-SPELLINGS = ['str', 'Path', './', './/', 'detour', 'detour-values', 'dupsep', 'abs', 'absPath', 'slash', 'dot-mid', 'updown', 'updown2', 'via-other-name', 'ulink']
-MUST_HIT = ['handle-opened-through-symlinked-directory', 'spell:ulink', 'spell:via-other-name', 'm:delete_files:bare', 'env:c-locale', 'handle-opened-by-relative-path', 'spell:updown', 'path-recreated-as-other-kind', 'kind:Array', 'kind:Ragged', 'spell:Path', 'spell:./', 'spell:detour', 'target:subdir-file', 'target:dirname', 'target:absent',
+SPELLINGS = ['str', 'Path', './', './/', 'detour', 'detour-values', 'dupsep', 'abs', 'absPath', 'slash', 'dot-mid', 'updown', 'updown2', 'via-other-name', 'ulink', 'fspath-obj', 'str-subclass']
+MUST_HIT = ['spell:fspath-obj', 'spell:str-subclass', 'handle-opened-through-symlinked-directory', 'spell:ulink', 'spell:via-other-name', 'm:delete_files:bare', 'env:c-locale', 'handle-opened-by-relative-path', 'spell:updown', 'path-recreated-as-other-kind', 'kind:Array', 'kind:Ragged', 'spell:Path', 'spell:./', 'spell:detour', 'target:subdir-file', 'target:dirname', 'target:absent',
             'target:new-in-subdir', 'user:json', 'user:txt', 'user:overwrite-refused', 'user:delete', 'mixed-delete', 'read-protected-ok'] + \
            ['m:' + m for m in METHODS]
 
@@ -70,6 +70,10 @@ def spell(name, how, base):
         # the array directory has two names (x.darr and the symlink 'current' next to it): go up and come back through the OTHER one
         other = 'x.darr' if os.path.basename(str(base)) == 'current' else 'current'
         return '../' + other + '/' + name
+    if how == 'fspath-obj':
+        return _FsName(name)        # an os.PathLike that is neither str nor Path; its str() is not its path
+    if how == 'str-subclass':
+        return _OddStr(name)        # a str subclass whose __str__ says something else
     if how == 'ulink':
         return 'ulink'           # a symbolic link made by the user inside the array directory that points at the protected entry
     if how in ('updown', 'updown2'):
@@ -78,6 +82,22 @@ def spell(name, how, base):
         k = 2 if how == 'updown' else 3
         return '/'.join(['..'] * k + parts[-k:] + [name])
     raise ValueError(how)
+
+
+class _FsName:
+    def __init__(self, p_):
+        self._p = p_
+
+    def __fspath__(self):
+        return self._p
+
+    def __repr__(self):
+        return f'_FsName({self._p!r})'
+
+
+class _OddStr(str):
+    def __str__(self):
+        return 'something-else.txt'
 
 
 def call_method(dd, method, name, flag):
@@ -272,6 +292,16 @@ def _exec_user(ctx, spec, out):
                 got = dd.read_jsondict(nm)
                 if not c13.deep_eq(got, want):
                     out.viol('json-roundtrip', 'write_jsondict/read_jsondict', f'{got!r:.200} vs {want!r:.200}')
+                    return out
+                # what was handed out belongs to the caller: changing it in place changes neither the next read nor the file
+                got['changed by the caller'] = 1
+                for v_ in got.values():
+                    if isinstance(v_, list):
+                        v_.append('changed by the caller')
+                    elif isinstance(v_, dict):
+                        v_['changed by the caller'] = 1
+                if not c13.deep_eq(dd.read_jsondict(nm), want):
+                    out.viol('json-roundtrip', 'read_jsondict:aliased', 'a dict returned by read_jsondict, changed by the caller, shows up in the next read')
                     return out
                 d2 = {k: c13.build_value(v) for k, v in spec['d2']}
                 try:
